@@ -64,6 +64,10 @@ def check_models(res: genrun.GenResult, spec: dict) -> tuple[list[Violation], in
     with genrun.load_package(res):
         models = genrun.import_module_of(res, "models")
         for name, node in schemas.items():
+            # every named schema - object, enum, alias - has something of its own in the models package
+            if "$ref" not in node and c03.model_class(models, name) is None:
+                viols.append(Violation(("model", "named_schema_not_emitted", I.kind_of(node, schemas)), f"{name}: nothing exported for it by {sorted(getattr(models, '__all__', []))[:12]}"))
+        for name, node in schemas.items():
             f = I.flatten(node, schemas)
             n = I.resolve(node, schemas)
             if f is None or "oneOf" in n or "anyOf" in n or "$ref" in node:
@@ -130,8 +134,8 @@ def evaluate(case: dict) -> list[Violation]:
             return []
         try:
             return check_models(res, case["spec"])[0]
-        except (ImportError, SyntaxError, TypeError, NameError, AttributeError):
-            return []
+        except (ImportError, SyntaxError, TypeError, NameError, AttributeError) as e:
+            return [Violation(("model", "models_package_unusable", type(e).__name__), f"{e!r}"[:300])]
     finally:
         genrun.cleanup(res)
 
@@ -141,7 +145,7 @@ def valid_case(case: dict) -> bool:
 
 
 def shards(tier: str, seed: int) -> list[dict]:
-    n_sh, per = (8, 150) if tier == "quick" else (32, 1500)
+    n_sh, per = (16, 150) if tier == "quick" else (32, 1500)
     return [{"mode": "b_models", "seed": seed * 1000 + 500 + i, "n": per} for i in range(n_sh)]
 
 
@@ -162,8 +166,10 @@ def run_shard(shard: dict) -> dict:
                 continue
             try:
                 viols, ev, nt = check_models(res, case["spec"])
-            except (ImportError, SyntaxError, TypeError, NameError, AttributeError):
-                col.classes["skipped_c01_import"] += 1
+            except (ImportError, SyntaxError, TypeError, NameError, AttributeError) as e:
+                # C01's open triggers are excluded from this domain: a models package that cannot be imported here means some schema
+                # has no usable model for a reason nobody has listed
+                col.record(case, [Violation(("model", "models_package_unusable", type(e).__name__), f"{e!r}"[:300])], False, ["b_models", "b_package_unusable"])
                 continue
             col.record(case, viols, nt > 0, ["b_models"], sample={"part": "b", "schemas": (case["spec"].get("components") or {}).get("schemas")})
         finally:
